@@ -285,7 +285,11 @@ def unique_names(ctx):
         raise Machinery('UniqueNames emitted %d lists' % len(seen))
     bad = 0
     for c in seen.values():
-        got = SqlMethodT._make_unique_names_list(list(c['names']))
+        try:
+            got = SqlMethodT._make_unique_names_list(list(c['names']))
+        except AttributeError:
+            ctx.note_drift('UniqueNames: SqlMethodT has no _make_unique_names_list any more: the growth item is skipped')
+            break
         if list(got) != list(c['result']):
             bad += 1
             if bad <= 3:
